@@ -1761,11 +1761,9 @@ class BADS:
 
         # A search improvement implies an update of the incumbent
         if is_search_improved:
-            if self.options["acq_hedge"]:
-                # Acquisition hedge (acquisition portfolio) not supported yet
-                pass
-            else:
-                method = self.search_es_hedge.chosen_search_fun[0]
+            # Acquisition hedge (acquisition portfolio) not supported yet: the search
+            # always goes through the ES hedge, whatever options["acq_hedge"] says
+            method = self.search_es_hedge.chosen_search_fun[0]
 
             # StoBads or sufficient improvement
             if is_search_success:
